@@ -25,6 +25,8 @@ enum Io {
     Raw,
     /// one caller-supplied descriptor used for several streams (like `>log 2>&1`)
     RawShared,
+    /// the caller's own standard output given as a raw descriptor (for stderr: `2>&1`)
+    CallerStdout,
 }
 
 #[derive(Clone, Debug)]
@@ -83,6 +85,8 @@ fn base_cmds() -> Vec<Cmd> {
     d2.closures = vec![Some(-1)];
     v.push(d2);
     v.push(c([Io::Null, Io::RawShared, Io::RawShared]));
+    v.push(c([Io::Null, Io::Null, Io::CallerStdout]));
+    v.push(c([Io::Null, Io::Pipe, Io::CallerStdout]));
     let mut e = c([Io::Pipe, Io::Null, Io::Pipe]);
     e.missing_bin = true;
     v.push(e);
@@ -258,6 +262,18 @@ fn run_cmd(cmd: &Cmd, plan: Option<Plan>, dec: Dec, record: bool, slot: u64) -> 
         let f = std::fs::File::open("/dev/null").unwrap();
         stat_of(f.as_raw_fd())
     };
+    // commands that hand over the caller's own stdout run with a file of their own on descriptor 1
+    let uses_caller_stdout = cmd.io.iter().any(|i| matches!(i, Io::CallerStdout));
+    let saved_stdout = if uses_caller_stdout {
+        let f = std::fs::OpenOptions::new().read(true).write(true).create(true).truncate(true).open(format!("{dir}/caller-stdout")).unwrap();
+        unsafe {
+            let saved = libc::fcntl(1, libc::F_DUPFD_CLOEXEC, 100);
+            libc::dup2(f.as_raw_fd(), 1);
+            saved
+        }
+    } else {
+        -1
+    };
     let inherit_stat = [stat_of(0), stat_of(1), stat_of(2)];
     let my_pgid = unsafe { libc::getpgid(0) };
     let my_cwd = std::env::current_dir().unwrap();
@@ -309,6 +325,7 @@ fn run_cmd(cmd: &Cmd, plan: Option<Plan>, dec: Dec, record: bool, slot: u64) -> 
                     raw_fds_to_close.push(fd);
                     Some(Stdio::RawFd(Fd::try_new(fd).unwrap()))
                 }
+                Io::CallerStdout => Some(Stdio::RawFd(Fd::try_new(1).unwrap())),
                 Io::RawShared => {
                     if shared_raw < 0 {
                         shared_raw = unsafe { libc::dup(raw_file.as_raw_fd()) };
@@ -380,6 +397,13 @@ fn run_cmd(cmd: &Cmd, plan: Option<Plan>, dec: Dec, record: bool, slot: u64) -> 
     };
     for fd in raw_fds_to_close {
         unsafe { libc::close(fd) };
+    }
+    if saved_stdout >= 0 {
+        // Stdio::RawFd takes the descriptor over (spawn closes it in the caller): restore ours
+        unsafe {
+            libc::dup2(saved_stdout, 1);
+            libc::close(saved_stdout);
+        }
     }
     let sh = shared();
     let trace = k.trace.borrow().clone();
@@ -466,6 +490,7 @@ fn run_cmd(cmd: &Cmd, plan: Option<Plan>, dec: Dec, record: bool, slot: u64) -> 
                             Io::Default | Io::Inherit => Some(inherit_stat[i]),
                             Io::Null => Some(null_stat),
                             Io::Raw | Io::RawShared => Some(raw_stat),
+                            Io::CallerStdout => Some(inherit_stat[1]),
                             Io::Pipe => pipes[i],
                         };
                         let got = d.fds[i].map(|(a, b, _)| (a, b));
@@ -735,7 +760,7 @@ impl Check for C13 {
         12
     }
     fn rule(&self) -> String {
-        "enumeration part (complete): 13 base commands (every stdio mode per stream, args incl. empty and non-UTF-8, provided environment with duplicates/empty values/'=' in values, cwd, pgroup, uid/gid current and 65534, succeeding and failing pre_exec closures incl. one failing without an errno, missing binary) x every system-call index of the recorded parent trace and of the child trace between fork and exec x every plausible errno. seeded part: generated commands (0..7 args incl. 5000-byte and invalid UTF-8, 0..6 env entries, all options) with no fault or one drawn single fault. Oracle: code placed right after spawn() compares pids (a forked copy that gets there reports through a shared page); Ok => the exec target's dump (argv, raw environment block, cwd, pgid, uid/gid, identity of descriptors 0-2) equals the configuration and wait() yields its exit status; a failing step => Err with that step's errno and no child left alive. non-trivial = a fault fired or a closure/exec failure was configured; distinct = hash of (command, trace, plan)".into()
+        "enumeration part (complete): 15 base commands (every stdio mode per stream, args incl. empty and non-UTF-8, provided environment with duplicates/empty values/'=' in values, cwd, pgroup, uid/gid current and 65534, succeeding and failing pre_exec closures incl. one failing without an errno, missing binary) x every system-call index of the recorded parent trace and of the child trace between fork and exec x every plausible errno. seeded part: generated commands (0..7 args incl. 5000-byte and invalid UTF-8, 0..6 env entries, all options) with no fault or one drawn single fault. Oracle: code placed right after spawn() compares pids (a forked copy that gets there reports through a shared page); Ok => the exec target's dump (argv, raw environment block, cwd, pgid, uid/gid, identity of descriptors 0-2) equals the configuration and wait() yields its exit status; a failing step => Err with that step's errno and no child left alive. non-trivial = a fault fired or a closure/exec failure was configured; distinct = hash of (command, trace, plan)".into()
     }
     fn assumptions(&self) -> Vec<String> {
         vec![
